@@ -66,6 +66,7 @@ type box struct {
 	concurrent  bool
 	twinPull    bool // record VerifTwinPull at every BeginBlock (OLBOX_TWINPULL=1; only after boot)
 	pendingTwin string
+	pendingRun  string
 	prevDump    map[string][]byte
 	stuck       string
 
@@ -688,11 +689,17 @@ func (b *box) before(method string, req interface{}) {
 	if rq, ok := req.(abci.RequestBeginBlock); ok && method == "BeginBlock" && b.twinPull {
 		// what a node started right now would pull as this block's reward (fresh calculator, no cache)
 		amt, err := b.app.VerifTwinPull(rq.Header.Height)
+		run, rerr := b.app.VerifRunningPull(rq.Header.Height)
 		b.mu.Lock()
 		if err != nil {
 			b.pendingTwin = "error: " + err.Error()
 		} else {
 			b.pendingTwin = amt
+		}
+		if rerr != nil {
+			b.pendingRun = "error: " + rerr.Error()
+		} else {
+			b.pendingRun = run
 		}
 		b.mu.Unlock()
 	}
@@ -738,6 +745,7 @@ func (b *box) after(method string, req, resp interface{}) {
 		c.Events = events(r.Events)
 		b.mu.Lock()
 		c.TwinPull, b.pendingTwin = b.pendingTwin, ""
+		c.RunPull, b.pendingRun = b.pendingRun, ""
 		b.mu.Unlock()
 		if rq, ok := req.(abci.RequestBeginBlock); ok {
 			c.Height = rq.Header.Height
